@@ -94,6 +94,8 @@ func checkC20(c *Check) {
 		return
 	}
 	c.Okf("ANCHOR", "commands", "-", "%d command Execute entries + cmdRunner.Run", n)
+	guardExitOK = true
+	defer func() { guardExitOK = false }()
 	res := runGuard(p, entries, excluded...)
 	reportGuard(c, "UNGUARDED-SITE", res)
 	runRec(c, "RECURSION", entries, nil, excluded...)
